@@ -647,12 +647,105 @@ def rule_ownsolver(ctx):
     return res.finish(2)
 
 
+def rule_tolgrad(ctx):
+    """The fits stop when the gradient norm falls below the configured tolerance: that is the number handed to the solver.
+    Multiplied by the number of samples (a "per-sample" reading of it) the returned point's gradient is n times larger than
+    the caller asked for - invisible on the tests' handful of rows."""
+    res = RuleResult("R-C12-tolgrad", "the gradient tolerance handed to L-BFGS is the configured one, not scaled by a size of the data")
+    F = ctx.facts()
+    n = 0
+    for fn in F.all_fns():
+        if fn["d"]["krate"] not in ("linfa_logistic", "linfa_linear") or fn.get("exp"):
+            continue
+        c = fn["crate"]
+        r = Render(c)
+        inits = {}
+        for y in walk(fn["body"]):
+            if y.get("k") == "LetStmt" and y.get("init") is not None and y["pat"].get("k") == "Bind":
+                inits[y["pat"]["local"]] = y["init"]
+        for y in walk(fn["body"]):
+            if y.get("k") != "MethodCall" or y["name"] not in ("with_tolerance_grad", "with_tolerance_cost") or not y["args"]:
+                continue
+            n += 1
+            key = "%s : %s" % (fn_key(fn), y["name"])
+            res.instance(key)
+            e = peel_refs(y["args"][0])
+            seen = 0
+            while seen < 6:
+                seen += 1
+                if e.get("k") == "Path" and e.get("local") in inits:
+                    e = peel_refs(inits[e["local"]])
+                elif e.get("k") == "Call" and len(e["args"]) == 1:
+                    e = peel_refs(e["args"][0])
+                elif e.get("k") == "MethodCall" and e["name"] in ("unwrap", "into") and not e["args"]:
+                    e = peel_refs(e["recv"])
+                else:
+                    break
+            if e.get("k") == "Binary" and e["op"] in ("*", "/"):
+                sizes = [z for z in walk(e) if z.get("k") == "MethodCall" and z["name"] in ("len", "nrows", "ncols", "nsamples", "nfeatures", "len_of", "dim", "shape")]
+                if sizes:
+                    res.violate("%s : tolerance-scaled-by-data-size" % key, "`%s`: the configured tolerance is multiplied / divided by `%s` before it reaches the solver: the gradient at the returned point is bounded by another number than the one the caller set (looser by the number of samples, say)" % (r.e(e)[:50], r.e(sizes[0])[:30]), fn_loc(fn, y.get("ln")))
+                else:
+                    res.undecided("%s : tolerance-arithmetic" % key, "`%s`: arithmetic between the setting and the solver (fail closed)" % r.e(e)[:50], fn_loc(fn, y.get("ln")))
+            else:
+                res.ok()
+    if n < 2:
+        res.missing_anchor("with_tolerance_grad calls in linfa-logistic / linfa-linear (found %d)" % n)
+    return res.finish(2)
+
+
+def rule_shift(ctx):
+    """softmax and log-sum-exp subtract the lane's *maximum* before exponentiating - that is what keeps exp() in range for
+    |x.w| ~ 1e3.  A running maximum started from a finite constant (`fold(0, max)`) is the maximum only for lanes with an
+    entry above the constant: for a lane of large negative scores the shift is 0, every exp() underflows and the
+    probabilities are 0 / 0."""
+    res = RuleResult("R-C12-shift", "the shift of softmax_inplace / log_sum_exp is a maximum over the lane alone (a running maximum starts from -inf or from an element)")
+    F = ctx.facts()
+    fns = [f for f in F.all_fns() if f["d"]["krate"] == "linfa_logistic" and f["d"]["name"] in ("softmax_inplace", "log_sum_exp")]
+    if len(fns) < 2:
+        res.missing_anchor("softmax_inplace / log_sum_exp (found %d)" % len(fns))
+    for fn in fns:
+        c = fn["crate"]
+        r = Render(c)
+        key = fn_key(fn)
+        res.instance(key)
+        bad = None
+        found = False
+        for y in walk(fn["body"]):
+            if y.get("k") != "MethodCall" or y["name"] not in ("fold", "fold_axis") or len(y["args"]) < 2:
+                continue
+            f_ = strip(y["args"][-1])
+            is_max = any((z.get("k") == "MethodCall" and z["name"] == "max") or (z.get("k") == "Path" and (c.dfn(z.get("def")) or {}).get("name") == "max") for z in walk(f_))
+            if not is_max:
+                continue
+            found = True
+            init = peel_refs(y["args"][-2])
+            while init.get("k") == "Call" and len(init["args"]) == 1:
+                init = peel_refs(init["args"][0])
+            nm = (c.dfn(strip(init.get("f", {})).get("def")) or {}).get("name") if init.get("k") == "Call" else (c.dfn(init.get("def")) or {}).get("name") if init.get("k") == "Path" else None
+            if init.get("k") == "Lit" or nm in ("zero", "one", "epsilon", "min_positive_value"):
+                bad = (y, init)
+            elif init.get("k") == "Unary" and init.get("op") in ("-", "Neg") and peel_refs(init["e"]).get("k") == "Lit":
+                bad = (y, init)
+        if any(z.get("k") == "MethodCall" and z["name"] in ("reduce", "max_by", "fold_first") for z in walk(fn["body"])):
+            found = True
+        if bad:
+            res.violate("%s : maximum-started-from-finite-constant" % key, "`%s`: the running maximum starts from `%s`, so for a lane whose entries are all below it the shift is that constant, not the lane's maximum - exp() underflows for large negative scores and the probabilities are 0 / 0" % (r.e(bad[0])[:50], r.e(bad[1])[:20]), fn_loc(fn, bad[0].get("ln")))
+        elif found:
+            res.ok()
+        else:
+            res.undecided("%s : shift-form" % key, "no maximum reduction recognised (fail closed)", fn_loc(fn))
+    return res.finish(2)
+
+
 def rules(tier):
     from . import carry, c04
     from . import extrema
     from . import precision
     from . import support, initlayout, shortcut, dispatchimpl
-    return [support.make_rule("R-C12-support", "TweedieDistribution::in_range admits no non-finite target (the predicate is evaluated at +inf, -inf and NaN)",
+    from . import sizeroute
+    return [sizeroute.make_rule("R-C12-sizeroute", lambda f: f["d"]["krate"] == "linfa_logistic" or (f["d"]["krate"] == "linfa_linear" and "glm" in fn_file(f)), "logistic regression and the GLM"),
+            rule_tolgrad, rule_shift, support.make_rule("R-C12-support", "TweedieDistribution::in_range admits no non-finite target (the predicate is evaluated at +inf, -inf and NaN)",
                               lambda f: f["d"]["krate"] == "linfa_linear" and f["d"]["name"] == "in_range" and (f["d"].get("self_adt") or "").endswith("TweedieDistribution"),
                               2, "TweedieDistribution::in_range"),
             initlayout.make_rule("R-C12-initlayout", "linfa_logistic", "setup_init_params", "ArgminParam", 3),
